@@ -41,7 +41,7 @@ double xv_arg3_num(const XObjectPtr* a) __CPROVER_requires(g_has3) __CPROVER_ass
 @@FN getStartIndex@@
 @@FN getSubstringLength@@
 
-static void xv_havoc(void) { size_t p; bool b; double c, r; g_p = p; g_has3 = b; g_c = c; g_r3 = r; }
+static void xv_havoc(void) { size_t p; bool b; double c, r; g_p = p; g_has3 = XV_BOOL(b); g_c = c; g_r3 = r; }
 void h_getStartIndex(void) { xv_havoc(); double ha; size_t hl; getStartIndex(ha, hl); }
 void h_getSubstringLength(void) { xv_havoc(); size_t hl, hs; double ha; getSubstringLength(0, hl, hs, ha, 0); }
 '''
